@@ -38,6 +38,10 @@ type Server struct {
 	leasesByCircuitID   map[string]*Lease // hex(CircuitID) -> Lease
 	leasesByCircuitIDMu sync.RWMutex
 
+	// Addresses reserved by DISCOVER that have not become a lease yet
+	offers   map[string]*pendingOffer // MAC -> offer
+	offersMu sync.Mutex
+
 	// RADIUS integration (optional)
 	radiusClient *radius.Client
 	policyMgr    *radius.PolicyManager
@@ -102,6 +106,19 @@ type Lease struct {
 	RemoteID  []byte // Option 82 Remote-ID
 }
 
+// pendingOffer is an address reserved in a pool by DISCOVER for a client that
+// has no lease yet. It is given back when the client is refused, releases it,
+// or does not request it in time.
+type pendingOffer struct {
+	mac       net.HardwareAddr
+	poolID    uint32
+	expiresAt time.Time
+}
+
+// offerHoldTime is how long an offered address stays reserved for the client
+// (never longer than the pool's lease time).
+const offerHoldTime = 2 * time.Minute
+
 // RelayAgentInfo contains parsed Option 82 data (Issue #15)
 type RelayAgentInfo struct {
 	CircuitID []byte // Sub-option 1: identifies physical port/VLAN
@@ -132,6 +149,7 @@ func NewServer(cfg ServerConfig, loader *ebpf.Loader, poolMgr *PoolManager, logg
 		poolMgr:           poolMgr,
 		leases:            make(map[string]*Lease),
 		leasesByCircuitID: make(map[string]*Lease),
+		offers:            make(map[string]*pendingOffer),
 		radiusAuthEnabled: cfg.RADIUSAuthEnabled,
 	}, nil
 }
@@ -510,6 +528,7 @@ func (s *Server) handleDiscover(req *dhcpv4.DHCPv4) (*dhcpv4.DHCPv4, error) {
 			if err != nil {
 				return nil, fmt.Errorf("failed to allocate IP: %w", err)
 			}
+			s.noteOffer(mac, pool)
 		} else if pool == nil {
 			// Got IP from Nexus, use default pool for metadata
 			pool = s.poolMgr.ClassifyClient(mac)
@@ -615,6 +634,7 @@ func (s *Server) handleRequest(req *dhcpv4.DHCPv4) (*dhcpv4.DHCPv4, error) {
 				)
 				atomic.AddUint64(&s.radiusAuthFail, 1)
 				atomic.AddUint64(&s.naksTotal, 1)
+				s.dropOffer(mac)
 				return s.buildNAK(req, "authentication failed")
 			}
 
@@ -625,6 +645,7 @@ func (s *Server) handleRequest(req *dhcpv4.DHCPv4) (*dhcpv4.DHCPv4, error) {
 				)
 				atomic.AddUint64(&s.radiusAuthFail, 1)
 				atomic.AddUint64(&s.naksTotal, 1)
+				s.dropOffer(mac)
 				return s.buildNAK(req, "access denied")
 			}
 
@@ -653,6 +674,7 @@ func (s *Server) handleRequest(req *dhcpv4.DHCPv4) (*dhcpv4.DHCPv4, error) {
 			)
 		} else if !pool.Contains(requestedIP) {
 			atomic.AddUint64(&s.naksTotal, 1)
+			s.dropOffer(mac)
 			return s.buildNAK(req, "IP not in pool")
 		} else if !s.nexusAllocates(mac) {
 			// The local pool owns the address: the client may only be
@@ -717,6 +739,11 @@ func (s *Server) handleRequest(req *dhcpv4.DHCPv4) (*dhcpv4.DHCPv4, error) {
 	s.leasesMu.Lock()
 	s.leases[mac.String()] = lease
 	s.leasesMu.Unlock()
+
+	// The offered address is now a lease
+	s.offersMu.Lock()
+	delete(s.offers, mac.String())
+	s.offersMu.Unlock()
 
 	// Maintain circuit-ID secondary index for relay-aware lookup
 	if len(lease.CircuitID) > 0 {
@@ -929,6 +956,11 @@ func (s *Server) handleRelease(req *dhcpv4.DHCPv4) {
 			zap.String("ip", lease.IP.String()),
 			zap.String("session_id", lease.SessionID),
 		)
+	}
+
+	if !exists {
+		// The client gives up an address it was only offered
+		s.dropOffer(mac)
 	}
 
 	atomic.AddUint64(&s.releasesTotal, 1)
@@ -1206,6 +1238,8 @@ func (s *Server) cleanupExpiredLeases() {
 	now := time.Now()
 	var expired []string
 
+	s.reclaimStaleOffers(now)
+
 	s.leasesMu.RLock()
 	for mac, lease := range s.leases {
 		if now.After(lease.ExpiresAt) {
@@ -1259,6 +1293,61 @@ func (s *Server) cleanupExpiredLeases() {
 	s.logger.Info("Cleaned up expired leases",
 		zap.Int("count", removed),
 	)
+}
+
+// noteOffer records that DISCOVER reserved an address of pool for mac.
+func (s *Server) noteOffer(mac net.HardwareAddr, pool *Pool) {
+	hold := offerHoldTime
+	if pool.LeaseTime > 0 && pool.LeaseTime < hold {
+		hold = pool.LeaseTime
+	}
+	s.offersMu.Lock()
+	s.offers[mac.String()] = &pendingOffer{mac: mac, poolID: pool.ID, expiresAt: time.Now().Add(hold)}
+	s.offersMu.Unlock()
+}
+
+// dropOffer gives back the address DISCOVER reserved for mac, unless it has
+// become a lease in the meantime.
+func (s *Server) dropOffer(mac net.HardwareAddr) {
+	macStr := mac.String()
+
+	s.offersMu.Lock()
+	offer := s.offers[macStr]
+	delete(s.offers, macStr)
+	s.offersMu.Unlock()
+
+	if offer == nil {
+		return
+	}
+
+	s.leasesMu.RLock()
+	_, leased := s.leases[macStr]
+	s.leasesMu.RUnlock()
+	if leased {
+		return
+	}
+
+	if pool := s.poolMgr.GetPool(offer.poolID); pool != nil {
+		pool.ReleaseAllocation(mac)
+	}
+}
+
+// reclaimStaleOffers gives back addresses that were offered but not requested
+// within the hold time.
+func (s *Server) reclaimStaleOffers(now time.Time) {
+	var stale []net.HardwareAddr
+
+	s.offersMu.Lock()
+	for _, offer := range s.offers {
+		if now.After(offer.expiresAt) {
+			stale = append(stale, offer.mac)
+		}
+	}
+	s.offersMu.Unlock()
+
+	for _, mac := range stale {
+		s.dropOffer(mac)
+	}
 }
 
 // Stats returns DHCP server statistics
